@@ -169,10 +169,26 @@ def run_pass_kill(res, ast):
                             okv = v in ("Add", "Sub", "Mul", "Copy", "Inp")
                             res.check(okv, "PASS-KILL", f"{BC}|{fname}|{v}|insert", where(BC, node, fname),
                                       f"{fname}: Instr::{v} marks a cell dead although it does not overwrite it")
+    # record_branch_targets marks the target of every branch of both kinds
+    try:
+        import pm
+        rb = ast.fn(BC, "record_branch_targets")["node"]
+        okb = False
+        for l in walk_t(rb["body"], "ForLoop"):
+            for alt in ("Instr::BrNZ(_, __v_off) | Instr::BrZ(_, __v_off)", "Instr::BrZ(_, __v_off) | Instr::BrNZ(_, __v_off)"):
+                if pm.match_expr(l, "for (__v_i, &__v_inst) in self.insts.iter().enumerate() { if let " + alt +
+                                 " = __v_inst { self.is_target[__v_i.wrapping_add_signed(__v_off)] = true; } }"):
+                    okb = True
+        sized = bool(pm.find_expr(rb["body"], "self.is_target.resize(self.insts.len() + 1, false)"))
+        res.check(okb and sized, "PASS-KILL", f"{BC}|record_branch_targets", where(BC, rb, "record_branch_targets"),
+                  "record_branch_targets must mark insts[i + off] for every BrZ and every BrNZ (one entry per instruction plus the end): "
+                  "an unmarked target lets a zeroing move be fused across a join point")
+    except Missing as m:
+        res.missing("PASS-KILL", m)
     # translate: zeroing_move_detection needs record_branch_targets first
     try:
         tr = ast.fn(BC, "translate")["node"]
-        seq = [m["method"] for m in walk_t(tr["body"], "MethodCall") if path_name(m["receiver"]) == "codegen"]
+        seq = [m["method"] for m in walk_t(tr["body"], "MethodCall") if path_name(m["receiver"])]
         ok = "record_branch_targets" in seq and "zeroing_move_detection" in seq and seq.index("record_branch_targets") < seq.index("zeroing_move_detection")
         res.check(ok, "PASS-KILL", f"{BC}|translate|targets-before-zeroing", where(BC, tr, "translate"),
                   "record_branch_targets must run before zeroing_move_detection")
@@ -215,13 +231,17 @@ def run_c11(res, ast, rules=("TEMPS-BY-CONSTRUCTION", "WINDOW-BY-CONSTRUCTION", 
                 res.check(ok, "TEMPS-BY-CONSTRUCTION", f"{BC}|count_temps|{v}", where(BC, ct, "count_temps"),
                           f"count_temps: Instr::{v} has {n} locations but get_max sees {passed}: a temporary index can exceed Program.temps")
             gm = [f for f in ast.find_fns(BC, "get_max")]
-            okg = len(gm) == 1 and "ifletLoc::Tmp(t)=l{*t+1}else{0}" in T(ast, gm[0]["node"]["body"]) and ".max()" in T(ast, gm[0]["node"]["body"])
+            import pm
+            okg = len(gm) == 1 and bool(pm.find_expr(gm[0]["node"]["body"], "if let Loc::Tmp(__v_t) = __v_l { *__v_t + 1 } else { 0 }")) and ".max()" in T(ast, gm[0]["node"]["body"])
             res.check(okg, "TEMPS-BY-CONSTRUCTION", f"{BC}|get_max", where(BC, gm[0]["node"], "get_max") if gm else BC,
                       "get_max must map Loc::Tmp(t) to t + 1 (else 0) and take the maximum")
             res.check(".max()" in T(ast, ct["body"], 2000).split("get_max")[-1] or T(ast, ct["body"], 2000).rstrip("}").endswith(".max().unwrap_or(0)"),
                       "TEMPS-BY-CONSTRUCTION", f"{BC}|count_temps|fold", where(BC, ct, "count_temps"), "count_temps must fold the per-instruction values with max")
             tr = ast.fn(BC, "translate")["node"]
-            seq = [(m["method"], m["sp"][0]) for m in walk_t(tr["body"], "MethodCall") if path_name(m["receiver"]) == "codegen"]
+            cgn = [l_["pat"]["name"] for l_ in walk_t(tr["body"], "Local") if l_["pat"]["t"] == "PIdent" and l_["init"] is not None
+                   and strip_paren(l_["init"])["t"] == "StructExpr" and strip_paren(l_["init"])["path"]["name"] == "CodeGen"]
+            cgn = cgn[0] if len(cgn) == 1 else "codegen"
+            seq = [(m["method"], m["sp"][0]) for m in walk_t(tr["body"], "MethodCall") if path_name(m["receiver"]) == cgn]
             names = [s[0] for s in seq]
             ok = names and names[-1] == "count_temps"
             res.check(bool(ok), "TEMPS-BY-CONSTRUCTION", f"{BC}|translate|count-last", where(BC, tr, "translate"),
@@ -231,7 +251,7 @@ def run_c11(res, ast, rules=("TEMPS-BY-CONSTRUCTION", "WINDOW-BY-CONSTRUCTION", 
             if len(se) == 1:
                 fl = {f["member"]: T(ast, f["expr"]) for f in se[0]["fields"]}
                 lets = {l["pat"].get("name"): T(ast, l["init"]) for l in walk_t(tr["body"], "Local") if l["init"] is not None and l["pat"]["t"] == "PIdent"}
-                okp = lets.get(fl.get("temps")) == "codegen.count_temps()" and fl.get("insts") == "codegen.insts" and fl.get("live") == "codegen.live"
+                okp = lets.get(fl.get("temps")) == f"{cgn}.count_temps()" and fl.get("insts") == f"{cgn}.insts" and fl.get("live") == f"{cgn}.live"
             res.check(okp, "TEMPS-BY-CONSTRUCTION", f"{BC}|translate|program", where(BC, tr, "translate"),
                       "Program { temps, insts, live } must be the counted temps and the generator's own vectors")
         except Missing as m:
@@ -312,15 +332,48 @@ def run_c11(res, ast, rules=("TEMPS-BY-CONSTRUCTION", "WINDOW-BY-CONSTRUCTION", 
                               f"Analysis::analyze, ir::Instr::{v}: {what} is not recorded")
             # ir.rs twin
             cm = ast.fn(IR, "compute_min_max_accessed")["node"]
-            tc = T(ast, cm["body"], 6000, IR)
             wi = where(IR, cm, "compute_min_max_accessed")
-            for frag, what in (("letmutmin=0;letmutmax=0;", "window starts at [0, 0]"),
-                               ("Instr::Output{src}=>{min=min.min(*src);max=max.max(*src);}", "Output.src"),
-                               ("Instr::Input{dst}=>{min=min.min(*dst);max=max.max(*dst);}", "Input.dst"),
-                               ("min=min.min(*var);max=max.max(*var);forvarincalc.variables(){min=min.min(var);max=max.max(var);}", "Calc targets and variables"),
-                               ("min=min.min(*cond).min(sub_min);max=max.max(*cond).max(sub_max);", "Loop/If condition and nested block")):
-                res.check(frag in tc, "WINDOW-BY-CONSTRUCTION", f"{IR}|compute_min_max_accessed|{what}", wi,
-                          f"Block::compute_min_max_accessed does not account for {what}")
+            st0 = cm["body"]["stmts"]
+            b0 = pm.match_stmts(st0[:2], "let mut __v_min = 0; let mut __v_max = 0;") if len(st0) >= 2 else None
+            res.check(b0 is not None, "WINDOW-BY-CONSTRUCTION", f"{IR}|compute_min_max_accessed|window starts at [0, 0]", wi,
+                      "Block::compute_min_max_accessed must start from min = max = 0")
+            env_ = b0 or {}
+            arms2 = {}
+            for m in walk_t(cm["body"], "Match"):
+                for a in m["arms"]:
+                    pats = a["pat"]["cases"] if a["pat"]["t"] == "POr" else [a["pat"]]
+                    for p_ in pats:
+                        if p_["t"] == "PStruct":
+                            arms2[p_["path"]["name"].split("::")[-1]] = (a, {f_["member"]: (f_["pat"]["name"] if f_["pat"]["t"] == "PIdent" else None) for f_ in p_["fields"]})
+
+            def twin(v, fld, what):
+                a = arms2.get(v)
+                ok = False
+                if a is not None and a[1].get(fld):
+                    e2 = dict(env_)
+                    x = a[1][fld]
+                    ok = bool(pm.find_expr(a[0]["body"], f"__v_min = __v_min.min(*{x})", e2) or pm.find_expr(a[0]["body"], f"__v_min = __v_min.min(*{x}).min(__e_r)", e2)) and \
+                        bool(pm.find_expr(a[0]["body"], f"__v_max = __v_max.max(*{x})", e2) or pm.find_expr(a[0]["body"], f"__v_max = __v_max.max(*{x}).max(__e_r)", e2))
+                res.check(ok, "WINDOW-BY-CONSTRUCTION", f"{IR}|compute_min_max_accessed|{what}", wi, f"Block::compute_min_max_accessed does not account for {what}")
+            twin("Output", "src", "Output.src")
+            twin("Input", "dst", "Input.dst")
+            a = arms2.get("Calc")
+            okc = False
+            if a is not None and a[1].get("calcs"):
+                for l in walk_t(a[0]["body"], "ForLoop"):
+                    if pm.match_expr(l, "for (__v_var, __v_calc) in " + a[1]["calcs"] + " { __v_min = __v_min.min(*__v_var); __v_max = __v_max.max(*__v_var); "
+                                     "for __v_x in __v_calc.variables() { __v_min = __v_min.min(__v_x); __v_max = __v_max.max(__v_x); } }", dict(env_)):
+                        okc = True
+            res.check(okc, "WINDOW-BY-CONSTRUCTION", f"{IR}|compute_min_max_accessed|Calc targets and variables", wi,
+                      "Block::compute_min_max_accessed does not account for Calc targets and variables")
+            for v in ("Loop", "If"):
+                a = arms2.get(v)
+                ok = False
+                if a is not None and a[1].get("cond") and a[1].get("block"):
+                    ok = pm.match_expr(a[0]["body"], "{ let (__v_smin, __v_smax) = " + a[1]["block"] + ".compute_min_max_accessed(); __v_min = __v_min.min(*" + a[1]["cond"] +
+                                       ").min(__v_smin); __v_max = __v_max.max(*" + a[1]["cond"] + ").max(__v_smax); }", dict(env_)) is not None
+                res.check(ok, "WINDOW-BY-CONSTRUCTION", f"{IR}|compute_min_max_accessed|{v} condition and nested block", wi,
+                          f"Block::compute_min_max_accessed does not account for the {v} condition and its nested block")
             # provenance of tape offsets in bytecode
             n_off = 0
             bad = []
@@ -346,9 +399,14 @@ def run_c11(res, ast, rules=("TEMPS-BY-CONSTRUCTION", "WINDOW-BY-CONSTRUCTION", 
             res.check(not bad and n_off >= 10, "WINDOW-BY-CONSTRUCTION", f"{BC}|offset-provenance", BC,
                       f"tape offsets placed into bytecode must be copies of IR/bytecode operands (no arithmetic); found {bad[:3]} among {n_off} sites")
             tr = ast.fn(BC, "translate")["node"]
-            tt = T(ast, tr["body"], 6000)
-            ok = ("min_accessed:analysis.min_accessed,max_accessed:analysis.max_accessed," in tt and
-                  "min_accessed:codegen.min_accessed,max_accessed:codegen.max_accessed," in tt and "letanalysis=Analysis::analyze(program);" in tt)
+            import pm
+            an_l = [l_["pat"]["name"] for l_ in walk_t(tr["body"], "Local") if l_["pat"]["t"] == "PIdent" and l_["init"] is not None and pm.match_expr(l_["init"], "Analysis::analyze(__v_p)")]
+            lits = {se["path"]["name"]: {f_["member"]: T(ast, f_["expr"]) for f_ in se["fields"]} for se in walk_t(tr["body"], "StructExpr") if se["path"]["name"] in ("CodeGen", "Program")}
+            cg_l = [l_["pat"]["name"] for l_ in walk_t(tr["body"], "Local") if l_["pat"]["t"] == "PIdent" and l_["init"] is not None
+                    and strip_paren(l_["init"])["t"] == "StructExpr" and strip_paren(l_["init"])["path"]["name"] == "CodeGen"]
+            ok = (len(an_l) == 1 and len(cg_l) == 1 and
+                  lits.get("CodeGen", {}).get("min_accessed") == f"{an_l[0]}.min_accessed" and lits["CodeGen"].get("max_accessed") == f"{an_l[0]}.max_accessed" and
+                  lits.get("Program", {}).get("min_accessed") == f"{cg_l[0]}.min_accessed" and lits["Program"].get("max_accessed") == f"{cg_l[0]}.max_accessed")
             res.check(ok, "WINDOW-BY-CONSTRUCTION", f"{BC}|translate|window", where(BC, tr, "translate"),
                       "translate must copy the analysed window into CodeGen and into Program unchanged")
             assigns = [a for f in ast.find_fns(BC) for a in walk_t(f["node"].get("body") or {}, "Assign")
@@ -360,19 +418,18 @@ def run_c11(res, ast, rules=("TEMPS-BY-CONSTRUCTION", "WINDOW-BY-CONSTRUCTION", 
         res.rule("LIVE-ZIP", "`live` has one entry per instruction: allocate_temps pushes exactly once per visited instruction "
                  "and strip_noops filters `live` and `insts` with the same predicate", floor=2, what="obligations")
         try:
+            import pm
             sn = ast.fn(BC, "strip_noops")["node"]
-            t = T(ast, sn["body"], 4000)
-            ok = ("self.live.retain(|_|{idx+=1;!matches!(self.insts[idx-1],Instr::Noop)});" in t and
-                  "self.insts.retain(|inst|!matches!(inst,Instr::Noop));" in t and t.index("self.live.retain") < t.index("self.insts.retain")
-                  and "letmutidx=0;" in t)
-            res.check(ok, "LIVE-ZIP", f"{BC}|strip_noops|retain", where(BC, sn, "strip_noops"),
+            b_ = pm.match_stmts(sn["body"]["stmts"], "__rest; let mut __v_k = 0; self.live.retain(|_| { __v_k += 1; !matches!(self.insts[__v_k - 1], Instr::Noop) }); "
+                                "self.insts.retain(|__v_x| !matches!(__v_x, Instr::Noop));")
+            res.check(b_ is not None, "LIVE-ZIP", f"{BC}|strip_noops|retain", where(BC, sn, "strip_noops"),
                       "strip_noops must filter `live` (first, indexing the unfiltered insts) and `insts` with the same `is Noop` predicate")
             at = ast.fn(BC, "allocate_temps")["node"]
             loops = [l for l in at["body"]["stmts"] if l["t"] == "ExprStmt" and l["expr"]["t"] == "ForLoop"
                      and T(ast, l["expr"]["expr"]) == "0..self.insts.len()"]
             okp = False
             if len(loops) == 1:
-                top = [s for s in loops[0]["expr"]["body"]["stmts"] if s["t"] == "ExprStmt" and T(ast, s).rstrip(";") == "self.live.push(live)"]
+                top = [s for s in loops[0]["expr"]["body"]["stmts"] if s["t"] == "ExprStmt" and pm.match_expr(s["expr"], "self.live.push(__v_l)")]
                 allp = [m for m in walk_t(at["body"], "MethodCall") if m["method"] == "push" and T(ast, m["receiver"]) == "self.live"]
                 conts = [c for c in walk_t(loops[0]["expr"]["body"], "Continue", "Break")]
                 conts = [c for c in conts if not inside_inner_loop(loops[0]["expr"], c)]
